@@ -9,7 +9,9 @@ import (
 	"golang.org/x/tools/go/ssa"
 )
 
-func init() { register("C07", "operands are evaluated exactly once, left to right; skipped operands never run", checkC07) }
+func init() {
+	register("C07", "operands are evaluated exactly once, left to right; skipped operands never run", checkC07)
+}
 
 // node kinds whose fields are deliberately not evaluated in source order, with the reason (not listed by the property).
 var c07OrderExempt = map[string]string{
